@@ -18,6 +18,7 @@ void harness_init() { quiet_gsl(); }
 
 struct Grid : public squids::SQuIDS {
   Grid(unsigned nx) : squids::SQuIDS(nx, 2, 1, 0, 0.0) {}
+  void reinit(unsigned nx) { ini(nx, 2, 1, 0, 0.0); }
 };
 static bool pow2(unsigned v) { return v && !(v & (v - 1)); }
 
@@ -120,7 +121,11 @@ void run_case(ByteSource& s, CaseInfo& ci) {
     CHECK(g.Get_xrange() == before, "C17|Set_xrange-vector|grid-modified-by-rejected-call", "%s", ci.sample.c_str());
     return;
   }
-  Grid g(nx);
+  // (tail byte) the object may have had another number of nodes before: it is re-initialised to nx, and nothing of the old grid may remain
+  unsigned rk = s.tail_choose(4);
+  unsigned nx0 = rk == 1 ? nx + 1 + s.tail_choose(40) : rk == 2 ? std::max(2u, nx / 2) : nx;
+  Grid g(nx0);
+  if (nx0 != nx) { g.Set_xrange(0.0, (double)nx0, "linear"); g.reinit(nx); ci.label(nx0 > nx ? "reinitialised-with-fewer-nodes" : "reinitialised-with-more-nodes"); }
   // history: earlier grids set on the same object must leave no trace
   int npre = (int)s.choose(3);
   std::string pre;
